@@ -67,7 +67,7 @@ add("C01", "bounded-exhaustive input-shape exploration (character trees, token-s
     "trusted: wall-clock limits separate slow from hanging (120 s; 900 s for the size families); bounds: alphabets, lengths, depth 64, 64 KiB",
     "DESIGN.md section 4, C01")
 add("C11", "exhaustive exploration of environment answers (hash-iteration orders) with owned seeds and a closure certificate, x insertion orders x histories x repeated calls",
-    "25 colliding projects x insertion orders (quick 6, thorough all 24) x plain / replace histories (interim contents, a validation, the EOL twin of every file) x base keys of fresh threads x repeated validate() calls, plus the same projects in 4 (thorough 16) child processes; std's hash seeds are owned through an LD_PRELOAD getrandom shim, and seeds are enumerated until every hash container of <= 4 elements has been observed (hook H3) in all its iteration orders at every site (evidence lists observed / possible per site). All outputs of a project must be equal (trees by ==, diagnostic vectors element-wise) and every file's diagnostics ascending in (line, column).",
+    "28 colliding projects x insertion orders (quick 6, thorough all 24) x plain / replace histories (interim contents, a validation, the EOL twin of every file) x base keys of fresh threads x repeated validate() calls, plus the same projects in 4 (thorough 16) child processes and a cross-instance stage (every project in a fresh child process after every other project / after all others, earlier parsers dropped or kept alive: process-global and thread-local state); std's hash seeds are owned through an LD_PRELOAD getrandom shim, and seeds are enumerated until every hash container of <= 4 elements has been observed (hook H3) in all its iteration orders at every site (evidence lists observed / possible per site). All outputs of a project must be equal (trees by ==, diagnostic vectors element-wise) and every file's diagnostics ascending in (line, column).",
     "trusted: getrandom shim (self-tested each run), hook H3 observers; thread schedules are not explored (no synchronisation operations in the library)",
     "DESIGN.md section 4, C11")
 add("C12", "explicit-state exploration of operation histories on the live Parser (cloned per branch) against a fresh parser built from the abstract id -> content map",
